@@ -22,41 +22,61 @@ def run_props(dst, props):
         out[prop] = sorted({i["key"] for i in rep.instances if not i["ok"]})
     return out
 
+def _one(m):
+    """analyse one registered change in a scratch copy; returns (id, kind, payload)."""
+    d, dst = make_scratch()
+    try:
+        ok, out = apply_diff(dst, os.path.join(MUT_DIR, m["file"]))
+        if not ok:
+            return m["id"], "SKIP", "diff does not apply"
+        try:
+            return m["id"], "ok", run_props(dst, m["properties"])
+        except SystemExit as e:
+            return m["id"], "NOBUILD", str(e)
+        except BaseException as e:
+            return m["id"], "NOBUILD", repr(e)
+    finally:
+        shutil.rmtree(d, ignore_errors=True)
+
+
+def _init(q):
+    os.environ["PCV_WORKER"] = str(q.get())
+
+
 def main():
     idx = json.load(open(os.path.join(MUT_DIR, "index.json")))
     only = sys.argv[1:]
     base = run_props("/repo", sorted({p for m in idx for p in m["properties"]}))
     print("baseline violations:", {k: v for k, v in base.items() if v})
+    todo = [m for m in idx if not only or any(o in m["id"] for o in only)]
+    import multiprocessing as mp
+    n = max(1, min(int(os.environ.get("PCV_SELFTEST_WORKERS", "8")), len(todo)))
+    ctx = mp.get_context("fork")
+    q = ctx.Queue()
+    for k in range(n):
+        q.put(k)
+    with ctx.Pool(n, initializer=_init, initargs=(q,)) as pool:
+        results = dict((r[0], r[1:]) for r in pool.map(_one, todo, chunksize=1))
     bad = 0
-    for m in idx:
-        if only and not any(o in m["id"] for o in only):
-            continue
-        d, dst = make_scratch()
-        try:
-            ok, out = apply_diff(dst, os.path.join(MUT_DIR, m["file"]))
-            if not ok:
-                print("SKIP  %-55s diff does not apply" % m["id"]); bad += 1; continue
-            try:
-                res = run_props(dst, m["properties"])
-            except SystemExit as e:
-                print("NOBUILD %-53s %s" % (m["id"], e)); bad += 1; continue
-            for prop, v in res.items():
-                added = sorted(set(v) - set(base[prop]))
-                if m.get("silent"):
-                    st = "ok-silent" if not added else "FALSE-ALARM"
+    for m in todo:
+        kind, res = results[m["id"]]
+        if kind != "ok":
+            print("%-7s %-55s %s" % (kind, m["id"], res)); bad += 1; continue
+        for prop, v in res.items():
+            added = sorted(set(v) - set(base[prop]))
+            if m.get("silent"):
+                st = "ok-silent" if not added else "FALSE-ALARM"
+            else:
+                exp = [e for e in m.get("expect", []) if e.startswith(prop + ":")]
+                if exp:
+                    st = "caught" if all(any(a.startswith(e) for a in added) for e in exp) else ("caught(other key)" if added else "MISSED")
                 else:
-                    exp = [e for e in m.get("expect", []) if e.startswith(prop + ":")]
-                    if exp:
-                        st = "caught" if all(any(a.startswith(e) for a in added) for e in exp) else ("caught(other key)" if added else "MISSED")
-                    else:
-                        st = "caught" if added else "MISSED"
-                    if st == "MISSED" and m.get("known_miss"):
-                        st = "known-miss"
-                if st in ("MISSED", "FALSE-ALARM"):
-                    bad += 1
-                print("%-18s %-4s %-55s %s" % (st, prop, m["id"], added[:2]))
-        finally:
-            shutil.rmtree(d, ignore_errors=True)
+                    st = "caught" if added else "MISSED"
+                if st == "MISSED" and m.get("known_miss"):
+                    st = "known-miss"
+            if st in ("MISSED", "FALSE-ALARM"):
+                bad += 1
+            print("%-18s %-4s %-55s %s" % (st, prop, m["id"], added[:2]))
     print("problems:", bad)
 
 
